@@ -5,7 +5,6 @@ import (
 
 	"github.com/HobbyOSs/gosk/internal/ast" // Import ast
 	"github.com/HobbyOSs/gosk/pkg/cpu"
-	"github.com/samber/lo" // lo をインポート
 )
 
 // Require66h はオペランドサイズプレフィックス (66h) が必要か判定します。
@@ -64,27 +63,11 @@ func (o *OperandPegImpl) Require66h() bool {
 				inherentSize = 64
 			}
 		case baseType == CodeM: // 明示的な DataType なしのメモリ
-			// メモリアドレスで使用されるレジスタに基づいて推定し、モードサイズにデフォルト設定
-			// この部分は resolveMemorySize ロジックと重複するため注意が必要
-			// ここでは単純化のため、他の情報がなければモードサイズにデフォルト設定すると仮定
-			// より堅牢な解決策には組み合わせたロジックが必要になる可能性がある
-			// まずレジスタに基づいて推定を試みる
-			mem := parsed.Memory
-			if mem != nil {
-				if strings.HasPrefix(mem.BaseReg, "E") || strings.HasPrefix(mem.IndexReg, "E") || mem.BaseReg == "ESP" || mem.IndexReg == "ESP" || mem.BaseReg == "EBP" || mem.IndexReg == "EBP" {
-					inherentSize = 32
-				} else if lo.Contains([]string{"BX", "SI", "DI", "SP", "BP"}, mem.BaseReg) || lo.Contains([]string{"SI", "DI"}, mem.IndexReg) {
-					inherentSize = 16
-				}
-			}
-			// それでも不明な場合は、モードに基づいてデフォルト設定
-			if inherentSize == 0 {
-				if is16bitMode {
-					inherentSize = 16
-				} else {
-					inherentSize = 32
-				}
-			}
+			// A memory operand without a size keyword has no operand size of its
+			// own: the registers inside the brackets select the ADDRESS size
+			// (Require67h), the operand size comes from the other operand or,
+			// failing that, from the mode.
+			continue
 		}
 
 		// 不一致をチェック
